@@ -267,6 +267,8 @@ package subscribe
 //@   modifies ghost notified, ghost visitedB
 //@   assert at call UpdateNotification#0: [the-cache-leaf-itself-is-offered-so-that-its-updates-coalesce C08 C11] arg0 == s.m && arg1 == box(old(n)) && arg2 != nil
 //@     && arg2 == old(n).leafBranch.(*pb.Notification) && view(arg3) == idxpath(arg2.Prefix, true)
+//@   ensures [every-leaf-goes-through-the-per-update-filter-once-or-is-logged-as-unknown C06]
+//@     hits("call UpdateNotification#0") + hits("call github.com/golang/glog.Errorf#0") == old(hits("call UpdateNotification#0")) + old(hits("call github.com/golang/glog.Errorf#0")) + 1
 
 // matchClient.Update only inserts into the (unbounded, coalescing) queue: it never blocks.
 //@ func (matchClient).Update
